@@ -66,13 +66,24 @@ def norm(x):
 class Runner:
     """Executes the operations of one logical environment."""
 
-    def __init__(self, source):
+    def __init__(self, source, shared=None):
         self.source = source
         self.env = None
         self.snap = None
         self.trace = []
+        # environments of one interleaving may be built from one and the same
+        # Scenario object (source["share"] names it)
+        self.shared = shared if shared is not None else {}
 
     def build_scenario(self):
+        key = self.source.get("share")
+        if key is None:
+            return self._build_scenario()
+        if key not in self.shared:
+            self.shared[key] = self._build_scenario()
+        return self.shared[key]
+
+    def _build_scenario(self):
         import nasim
         s = self.source
         if s["type"] == "shipped":
@@ -123,7 +134,13 @@ class Runner:
                 rec = ("reset", np.asarray(o).tobytes(), self.observe())
             elif op[0] == "step":
                 np.random.seed(op[2])
-                o, r, term, trunc, info = self.env.step(int(op[1]))
+                arg = int(op[1])
+                if not self.source["modes"]["flat_actions"]:
+                    # the vector documenting the same action (or the Action
+                    # object when the vector space cannot express it)
+                    arg = list(op[3]) if len(op) > 3 and op[3] is not None \
+                        else self.env.action_space.actions[int(op[1])]
+                o, r, term, trunc, info = self.env.step(arg)
                 rec = ("step", np.asarray(o).tobytes(), float(r), bool(term),
                        bool(trunc), norm(info), self.observe())
             elif op[0] == "mask":
@@ -170,7 +187,8 @@ def pilot(source, rng, nops):
             if i is None or rng.random() < 0.25:
                 i = rng.randrange(len(descs))
             seed = rngtap.seed_for(descs[i]["prob"], rng.random() < 0.85)[0]
-            op = ("step", i, seed)
+            from ..paramspace import vector_for
+            op = ("step", i, seed, vector_for(sp, descs[i]))
         before = r.env.current_state.tensor.tobytes()
         r.do(op)
         ops.append(op)
@@ -183,7 +201,8 @@ def pilot(source, rng, nops):
 def make_pair(rng, tier, force=None):
     """-> (sourceA, sourceB, kind)"""
     def modes():
-        return {"fully_obs": rng.random() < 0.4, "flat_actions": True,
+        return {"fully_obs": rng.random() < 0.4,
+                "flat_actions": rng.random() < 0.7,
                 "flat_obs": rng.random() < 0.6}
 
     def shipped(name):
@@ -270,6 +289,9 @@ def make_pair(rng, tier, force=None):
         else:
             a = syn()
         b = dict(a, modes=a["modes"] if rng.random() < 0.5 else modes())
+        if rng.random() < 0.5:
+            # both environments are built from one Scenario object
+            a["share"] = b["share"] = "S"
         return a, b, "same_scenario"
     if k == "same_layout":
         if rng.random() < 0.6:
@@ -305,7 +327,7 @@ def make_pair(rng, tier, force=None):
     if k == "different_modes":
         a = shipped(rng.choice(["tiny", "tiny-small", "small"]))
         b = dict(a, modes={"fully_obs": not a["modes"]["fully_obs"],
-                           "flat_actions": True,
+                           "flat_actions": not a["modes"]["flat_actions"],
                            "flat_obs": not a["modes"]["flat_obs"]})
         return a, b, "same_scenario"
     pool = [lambda: shipped(rng.choice(corpus.SHIPPED[:7])), syn,
@@ -331,7 +353,8 @@ def interleave(acc, A, B, opsA, opsB, soloA, soloB, sched, shim, kind, pair_id,
                changeA, changeB):
     """Execute one merge (sched = string of 'a'/'b').  Returns True if a
     divergence was found."""
-    ra, rb = Runner(A), Runner(B)
+    shared = {}
+    ra, rb = Runner(A, shared), Runner(B, shared)
     ia = ib = 0
     acc.evaluations += 1
     for pos, who in enumerate(sched):
